@@ -175,16 +175,19 @@ def setUser (a : AclState) (cmd : List Bytes) : AclState × AclOut :=
       | .panic => (a, .panic)
       | .unmod => (a, .unmod)
 
-/-- acl.go:190 DeleteUser — the `user` variable is declared outside the loop and keeps its value -/
-def deleteUsers (a : AclState) (names : List Bytes) : AclState :=
-  (names.foldl (fun (st : AclState × Option Bytes) name =>
-    if name == b "default" then st else
-    let sticky := match (st.1.users.filter fun p => p.2.name == name).getLast? with
-      | some p => some p.2.name
-      | none => st.2
-    match sticky with
-    | none => (st.1, none)
-    | some victim => ({ st.1 with order := st.1.order.filter fun i => (st.1.get i).name != victim }, some victim)) (a, none)).1
+/-- one iteration of the DeleteUser loop (acl.go:195-220); the second component is the loop-external
+    `user` variable, which keeps its value across iterations -/
+def delStep (st : AclState × Option Bytes) (name : Bytes) : AclState × Option Bytes :=
+  if name == b "default" then st else
+  let sticky := match (st.1.users.filter fun p => p.2.name == name).getLast? with
+    | some p => some p.2.name
+    | none => st.2
+  match sticky with
+  | none => (st.1, none)
+  | some victim => ({ st.1 with order := st.1.order.filter fun i => (st.1.get i).name != victim }, some victim)
+
+/-- acl.go:190 DeleteUser -/
+def deleteUsers (a : AclState) (names : List Bytes) : AclState := (names.foldl delStep (a, none)).1
 
 /-- acl.go:224 AuthenticateConnection. `cmd` is [AUTH, password] or [AUTH, username, password];
     `sha` is hex(sha256(password)). -/
@@ -218,34 +221,58 @@ structure CmdMeta where
   channels : List Bytes
 deriving Repr
 
+/-- acl.go:323-336: commands the procedure lets through before looking at the connection -/
+def codeExempt (comm : Bytes) : Bool :=
+  toLower comm == b "ack" || toLower comm == b "ping" || toLower comm == b "echo" || toLower comm == b "hello" || toLower comm == b "auth"
+
+/-- step 2 (acl.go:353-368): every category of the command is in IncludedCategories, unless that list holds "*" -/
+def catsIncluded (u : User) (m : CmdMeta) : Bool :=
+  u.inclCats.contains star || !(m.cats.any fun c => !u.inclCats.contains c)
+/-- step 3 (:370-381) -/
+def catsExcluded (u : User) (m : CmdMeta) : Bool :=
+  m.cats.any fun c => u.exclCats.any fun e => e == star || e == c
+/-- step 4 (:383-388) -/
+def cmdIncluded (u : User) (m : CmdMeta) : Bool := u.inclCmds.any fun c => c == star || c == m.comm
+/-- step 5 (:390-395) -/
+def cmdExcluded (u : User) (m : CmdMeta) : Bool := u.exclCmds.any fun c => c == star || c == m.comm
+/-- step 6 (:398-415) -/
+def chanDenied (gmatch : Bytes → Bytes → Bool) (u : User) (m : CmdMeta) : Bool :=
+  m.channels.any fun ch => !(u.inclChans.any fun g => gmatch g ch) || (u.exclChans.any fun g => gmatch g ch)
+/-- step 8 (:423-438): denied only when NO read key matches and a pattern was tried -/
+def readDenied (gmatch : Bytes → Bytes → Bool) (u : User) (m : CmdMeta) : Bool :=
+  !m.readKeys.isEmpty && !(m.readKeys.any fun k => u.readKeys.any fun g => gmatch g k) && !u.readKeys.isEmpty
+/-- step 9 (:440-453): denied only when NO write key matches -/
+def writeDenied (gmatch : Bytes → Bytes → Bool) (u : User) (m : CmdMeta) : Bool :=
+  !m.writeKeys.isEmpty && !(m.writeKeys.any fun k => u.writeKeys.any fun g => gmatch g k)
+
 /-- acl.go:297 AuthorizeConnection after key extraction. `none` = allowed. -/
 def authorize (gmatch : Bytes → Bytes → Bool) (requirePass : Bool) (authenticated : Bool) (u : User)
     (m : CmdMeta) : Option Deny :=
-  let comm := toLower m.comm
-  if comm == b "ack" || comm == b "ping" || comm == b "echo" || comm == b "hello" || comm == b "auth" then none else
+  if codeExempt m.comm then none else
   if !requirePass then none else
   if !authenticated then some .unauthenticated else
-  if !u.inclCats.contains star && m.cats.any (fun c => !u.inclCats.contains c) then some .categories else
-  if m.cats.any (fun c => u.exclCats.any fun e => e == star || e == c) then some .categories else
-  if !(u.inclCmds.any fun c => c == star || c == m.comm) then some .command else
-  if u.exclCmds.any (fun c => c == star || c == m.comm) then some .command else
-  if m.cats.contains (b "pubsub") then
-    if m.channels.any (fun ch => !(u.inclChans.any fun g => gmatch g ch) || (u.exclChans.any fun g => gmatch g ch))
-    then some .channel else none
+  if !catsIncluded u m then some .categories else
+  if catsExcluded u m then some .categories else
+  if !cmdIncluded u m then some .command else
+  if cmdExcluded u m then some .command else
+  if m.cats.contains (b "pubsub") then (if chanDenied gmatch u m then some .channel else none)
   else if m.readKeys.isEmpty && m.writeKeys.isEmpty then none
   else if u.noKeys then some .noKeys
-  else if !m.readKeys.isEmpty && !(m.readKeys.any fun k => u.readKeys.any fun g => gmatch g k) && !u.readKeys.isEmpty then some .readKeys
-  else if !m.writeKeys.isEmpty && !(m.writeKeys.any fun k => u.writeKeys.any fun g => gmatch g k) then some .writeKeys
+  else if readDenied gmatch u m then some .readKeys
+  else if writeDenied gmatch u m then some .writeKeys
   else none
 
-/-- glob matching for patterns made of literal bytes and `*` (the pattern alphabet of the harness) -/
-def globMatch : Bytes → Bytes → Bool
-  | [], [] => true
-  | [], _ :: _ => false
-  | 42 :: p, [] => globMatch p []
-  | 42 :: p, c :: s => globMatch p (c :: s) || globMatch (42 :: p) s
-  | _ :: _, [] => false
-  | x :: p, c :: s => x == c && globMatch p s
-termination_by p s => p.length + s.length
+/-- glob matching for patterns made of literal bytes and `*` (the pattern alphabet of the harness);
+    fuel = |pattern| + |string| + 1 -/
+def globMatchF : Nat → Bytes → Bytes → Bool
+  | 0, _, _ => false
+  | _ + 1, [], [] => true
+  | _ + 1, [], _ :: _ => false
+  | f + 1, 42 :: p, [] => globMatchF f p []
+  | f + 1, 42 :: p, c :: s => globMatchF f p (c :: s) || globMatchF f (42 :: p) s
+  | _ + 1, _ :: _, [] => false
+  | f + 1, x :: p, c :: s => x == c && globMatchF f p s
+
+def globMatch (p s : Bytes) : Bool := globMatchF (p.length + s.length + 1) p s
 
 end Sugar.Acl
